@@ -74,9 +74,9 @@ type c10Input struct {
 }
 
 var (
-	c10ProjSteps  = []string{"Len", "Check", "Example", "GetAST", "Used", "OpenAPI", "Deref"}
+	c10ProjSteps  = []string{"Len", "Check", "Example", "GetAST", "Used", "OpenAPI", "OpenAPIDesc", "Deref"}
 	c10EnumSteps  = []string{"Len", "Check", "Values", "GetAST", "UseInSchema"}
-	c10RegexSteps = []string{"Len", "Check", "Pattern", "GetAST", "Example", "OpenAPI"}
+	c10RegexSteps = []string{"Len", "Check", "Pattern", "GetAST", "Example", "OpenAPI", "OpenAPIDesc"}
 	c10DocSteps   = []string{"0:Lex3", "1:Lex3", "2:Check", "3:LexAll", "4:Len", "5:LexAll"}
 )
 
@@ -158,6 +158,8 @@ func (in *c10Input) opName(step string) string {
 		step = "UsedUserTypes"
 	case "OpenAPI":
 		return "openapi.MarshalJSON(" + strings.TrimSuffix(in.family(), ".") + ")"
+	case "OpenAPIDesc":
+		return "openapi.SetDescription+MarshalJSON(" + strings.TrimSuffix(in.family(), ".") + ")"
 	case "Deref":
 		return "openapi.Dereference"
 	case "Lex3", "LexAll":
@@ -470,6 +472,20 @@ func (o *c10Obj) runJSchema(op, from string, st *c10Step) string {
 			return c10Err(err)
 		}
 		return "B " + string(b)
+	case "OpenAPIDesc":
+		// the conversion with a description of the caller's own, one per input
+		if err := s.Check(); err != nil {
+			return "n/a"
+		}
+		so := openapi.NewSchemaObject(s)
+		so.SetDescription("described by the caller: " + o.in.id)
+		b, err := so.MarshalJSON()
+		o.keepErr(from, err)
+		o.keepBytes("OpenAPI bytes (with description)", from, b)
+		if err != nil {
+			return c10Err(err)
+		}
+		return "B " + string(b)
 	case "Deref":
 		if err := s.Check(); err != nil {
 			return "n/a"
@@ -617,11 +633,15 @@ func (o *c10Obj) runRegex(op, from string) string {
 			return c10Err(err)
 		}
 		return "B " + string(b)
-	case "OpenAPI":
+	case "OpenAPI", "OpenAPIDesc":
 		if err := x.Check(); err != nil {
 			return "n/a"
 		}
-		b, err := openapi.NewSchemaObject(x).MarshalJSON()
+		so := openapi.NewSchemaObject(x)
+		if op == "OpenAPIDesc" {
+			so.SetDescription("described by the caller: " + o.in.id)
+		}
+		b, err := so.MarshalJSON()
 		o.keepErr(from, err)
 		o.keepBytes("OpenAPI bytes", from, b)
 		if err != nil {
@@ -993,8 +1013,10 @@ func (st *c10State) run(h *c10History) bool {
 		if in == nil {
 			continue
 		}
-		if p != nil && in.Kind == "regex" && op.Step == "Example" {
-			key = "Example#" + strconv.Itoa(live[op.Slot].exN)
+		if in.Kind == "regex" && op.Step == "Example" {
+			// the example of a regex schema is made once: whichever call of a
+			// history asks, the answer is the one a fresh object gives first
+			key = "Example#1"
 		}
 		did := name + " on " + in.label
 		// (b) the same call list on fresh objects in a fresh process gave ...
@@ -1065,6 +1087,7 @@ var c10Accepted = []string{
 	`"a" // {enum: ["a","b"]}`, `"abc" // {regex: "^a"}`, `1 // {or: [{type: "integer"}, {type: "string"}]}`, `12.5 // {precision: 1}`,
 	`[1, "a"] // {minItems: 1}`, `{} // {additionalProperties: true}`, `{"a": 1} // {additionalProperties: "string"}`,
 	`"2020-01-01" // {type: "date"}`, `{"a\"b": 1, "c\\d": [2]}`, `{"key": null // {nullable: true}` + "\n}",
+	`{} // {type: "any"}`, `[] // {type: "any"}`, `"" // {type: "any"}`, "{\n  \"id\": 1,\n  \"payload\": {} // {type: \"any\"}\n}", `1 // {or: ["any", {type: "integer"}]}`, `// {type: "any"}`,
 	`[ // {maxItems: 3}` + "\n 1 // {min: 0} - note\n]", `{"a":1}    `, "\n\n{\"a\":[true,false,null]}\n",
 }
 
@@ -1094,6 +1117,8 @@ var c10Enums = []string{
 var c10Regexes = []string{
 	`/a/`, `/a[bc]{2}/`, `/^\d{3}-[a-f]+$/`, `/(foo|bar)+x?/`, `/[/`, `/a`, `a/`, ``, `//`, `/\//`, `/a/ trailing`, `/.{5}/`, `/[[:alpha:]]{1,4}\s\w/`, `/(?P<n>x)*/`, `/\p{Greek}+/`,
 }
+
+var c10RareRegexes = []string{`/[a-z]\b[a-z ]/`, `/[a-z ]\B[a-z]/`, `/^[a-y ]\b[a-y ]z$/`}
 
 var c10Docs = []string{
 	`1`, `"s"`, `{}`, `[]`, `{"a":[1,2,{"b":null}]}`, `[[[[1]]]]`, `{"a":`, `[1,]`, `tru`, `{"a":1} x`, ` [ 1 , "é\n" ] `, `{"a":1,"a":2}`, `-0.5e+3`, `1.`, ``, `{"k":"v"}}`,
@@ -1273,6 +1298,13 @@ func c10BuildUniverse(r *mon.Run) *c10Universe {
 		// the same text with other generator seeds: another input, with its own examples
 		u.add(&u.fixed, &c10Input{Kind: "regex", Text: s, Seed: 42}, "fixed: regex schema with a generator seed")
 		u.add(&u.fixed, &c10Input{Kind: "regex", Text: s, Seed: 7}, "fixed: regex schema with a generator seed")
+	}
+	// patterns the example generator satisfies only now and then (it ignores the
+	// assertions), so that some seeds give up: the remembered answer must stay
+	for _, s := range c10RareRegexes {
+		for seed := int64(1); seed <= 20; seed++ {
+			u.add(&u.fixed, &c10Input{Kind: "regex", Text: s, Seed: seed}, "fixed: regex schema whose example is rarely found, with a generator seed")
+		}
 	}
 	for _, s := range c10Docs {
 		u.add(&u.fixed, &c10Input{Kind: "doc", Text: s}, "fixed: JSON document")
@@ -1500,6 +1532,13 @@ func c10Run(r *mon.Run) {
 		for _, k := range mon.SortedKeys(d) {
 			if d[k] != d2[k] && !st.unstable[in.id] {
 				st.mismatch(in, k, d[k], d2[k], nil, "on first sight in this process", "computed a second time right afterwards", map[string]any{"nondet": in})
+			}
+		}
+		if in.Kind == "regex" && !st.unstable[in.id] {
+			for _, k := range []string{"Example#2", "Example#3"} {
+				if got, ok := d[k]; ok && got != d["Example#1"] {
+					r.Violate("history-dependent", "Example of "+in.label+" asked again", fmt.Sprintf("Example() on %s answers %s the first time and %s when the same object is asked again (%s)", in.label, strconv.QuoteToASCII(mon.Trunc(d["Example#1"], 120)), strconv.QuoteToASCII(mon.Trunc(got, 120)), k), map[string]any{"first_sight": in})
+				}
 			}
 		}
 		r.Eval(1)
